@@ -344,3 +344,24 @@ def scribble(container):
                 container[k] = np.asarray(container[k]) * 2 + 5
             except Exception:  # noqa: BLE001
                 pass
+
+
+def copies_agree(res, oracle, obj, p_queries, m_queries, what):
+    """A copy of a wrapper object (copy.copy, copy.deepcopy, pickle round trip - worker processes, caches) is the same
+    fluid: m_i, m_scaled_func at the given pressures and the diffusivity lookup at the given scaled pseudopressures
+    (inside and outside the table) must be identical to the original's."""
+    import copy
+    import pickle
+
+    want = (float(obj.m_i), np.asarray(obj.m_scaled_func(p_queries), float), np.asarray(obj.alpha(m_queries), float))
+    for how, make in (("copy.copy", copy.copy), ("copy.deepcopy", copy.deepcopy), ("pickle round trip", lambda o: pickle.loads(pickle.dumps(o)))):
+        try:
+            c = make(obj)
+            got = (float(c.m_i), np.asarray(c.m_scaled_func(p_queries), float), np.asarray(c.alpha(m_queries), float))
+        except Exception as e:  # noqa: BLE001
+            res.bad(oracle, f"{what}: {how} of the object cannot be made or evaluated: {type(e).__name__}: {e}")
+            return
+        for name, a, b in zip(("m_i", "m_scaled_func", "diffusivity lookup"), got, want):
+            if np.shape(a) != np.shape(b) or not np.array_equal(a, b, equal_nan=True):
+                res.bad(oracle, f"{what}: {name} of a {how} differs from the original's: {a!r} vs {b!r}")
+                return
